@@ -189,6 +189,9 @@ func (store *BaseStore[E]) Create(ctx MutateContext, entity E) error {
 	}
 
 	bucket := store.getOrCreateEntityBucket(ctx.Tx(), []byte(entity.GetId()))
+	if bucket.HasError() {
+		return bucket.GetError()
+	}
 	persistCtx := &PersistContext{
 		MutateContext: ctx,
 		Id:            entity.GetId(),
